@@ -158,6 +158,9 @@ def inject_replay(run, mc, preds, label, target):
     d = run.spec_dir("emit-" + label)
     kw = dict(mc["kw"])
     kw.update(rejected=True, emit=True)
+    if len(kw.get("gas", (1000,))) > 2:
+        # the gas points multiply the transitions: the emission run keeps the two most interesting ones (just below a charge, ample)
+        kw["gas"] = (kw["gas"][1], kw["gas"][-1])
     if run.tier == "quick":
         # the quick tier injects the state graph of a two-holder version of the configuration
         kw.update(rejsample=12)
